@@ -215,7 +215,38 @@ class TextModel:
         if name == "chars":
             from .interp import IterV
             return IterV(Char(self.cps[k]) for k in range(recv.lo, recv.hi))
+        if name == "parse":
+            return self.parse_int(it, recv, (e.get("turbofish") or "").replace(" ", "").replace("::", "").strip("<>"))
         raise InternalError("text method %s" % name)
+
+    INT_MAX = {"i8": 2 ** 7 - 1, "u8": 2 ** 8 - 1, "i16": 2 ** 15 - 1, "u16": 2 ** 16 - 1, "i32": 2 ** 31 - 1, "u32": 2 ** 32 - 1,
+               "i64": 2 ** 63 - 1, "u64": 2 ** 64 - 1, "isize": 2 ** 63 - 1, "usize": 2 ** 64 - 1, "i128": 2 ** 127 - 1, "u128": 2 ** 128 - 1}
+
+    def parse_int(self, it, s, ty):
+        """str::parse::<machine integer>() of a text all of whose characters are decimal digits:
+        Err on the empty string, on a non-digit (signs are not modelled: inconclusive), and on
+        overflow of the target type."""
+        from .values import Opaque, ISz
+        if ty not in self.INT_MAX:
+            raise InternalError("str::parse::<%s>" % ty)
+        if not isinstance(s, SymText):
+            raise InternalError("parse of %r" % (s,))
+        if s.lo == s.hi:
+            return err(Opaque("ParseIntError(Empty)"))
+        v = 0
+        for k in range(s.lo, s.hi):
+            cp = self.cps[k]
+            isd = z_and(cp >= 48, cp <= 57) if is_sym(cp) else (48 <= cp <= 57)
+            if not it.truth(isd):
+                sign = z_or(z_eq(cp, 43), z_eq(cp, 45))
+                if k == s.lo and it.truth(sign):
+                    raise InternalError("str::parse of a signed literal is not modelled")
+                return err(Opaque("ParseIntError(InvalidDigit)"))
+            v = v * 10 + (cp - 48)
+        fits = (v <= self.INT_MAX[ty])
+        if not it.truth(fits):
+            return err(Opaque("ParseIntError(PosOverflow)"))
+        return ok(ISz(v) if ty.startswith("i") else v)
 
     def is_char(self, it, k, ch):
         e = z_eq(self.cps[k], ord(ch))
@@ -252,6 +283,12 @@ class TextModel:
     def function(self, it, name, args, e, mod):
         if name == "GraphemeCursor::new":
             return Cursor(args[0], args[1])
+        if name == "BigInt::from":
+            from .values import ISz
+            v = it.resolve(it.deref(args[0]))
+            if isinstance(v, Big):
+                return v
+            return Big(v.v if isinstance(v, ISz) else v)
         if name == "BigInt::parse_bytes":
             s = it.deref(args[0])
             if not isinstance(s, SymText):
